@@ -116,6 +116,17 @@ class PathState:
         dt = _t.time() - t0
         if dt > 1.0:
             self.stats.setdefault('slow_queries', []).append((round(dt, 2), str(r), [str(e)[:200] for e in extra]))
+            import os as _os
+            if _os.environ.get('PYVC_DUMP_SLOW'):
+                k = self.stats['feasibility_queries']
+                s2 = z3.Solver()
+                s2.add(*(list(self.pc)))
+                with open('%s-%d.smt2' % (_os.environ['PYVC_DUMP_SLOW'], k), 'w') as f:
+                    f.write('; %.2fs %s\n' % (dt, r) + s2.to_smt2())
+                s2 = z3.Solver()
+                s2.add(*(list(self.scopes) + list(extra)))
+                with open('%s-%d-assumptions.smt2' % (_os.environ['PYVC_DUMP_SLOW'], k), 'w') as f:
+                    f.write('; %.2fs %s\n' % (dt, r) + s2.to_smt2())
         return r
 
     def infeasible_site(self):
